@@ -79,8 +79,8 @@ func c12Gen(t *rapid.T) any {
 	c.TLSMax = oneOf(t, "tlsmax", []int{0, 12, 13})
 	c.SNI = oneOf(t, "sni", []string{"localhost", "", "example.com", "plugin"})
 	if pct(t, "impostor", 15) {
-		c.Impostor = oneOf(t, "impostorkind", []string{"tls_other_cert", "plaintext", "nocert", "nocert"})
-		if c.Proto == "grpcmux" {
+		c.Impostor = oneOf(t, "impostorkind", []string{"tls_other_cert", "plaintext", "nocert", "nocert", "rogue_plugin_listener:samename", "rogue_plugin_listener:plaintext", "rogue_host_listener:samename", "rogue_host_listener:plaintext"})
+		if c.Proto == "grpcmux" || strings.HasPrefix(c.Impostor, "rogue_") {
 			c.Proto = "grpc"
 		}
 		c.Path = "main"
@@ -92,10 +92,13 @@ func c12Gen(t *rapid.T) any {
 func c12Enum() (int, func(i int) any) {
 	type cell struct{ proto, path string }
 	cells := []cell{{"netrpc", "main"}, {"grpc", "main"}, {"grpc", "plugin_brokered"}, {"grpc", "host_brokered"}, {"grpcmux", "main"}}
-	n := len(cells)*len(c12Creds) + 7
+	n := len(cells)*len(c12Creds) + 11
 	return n, func(i int) any {
 		if i >= len(cells)*len(c12Creds) {
 			j := i - len(cells)*len(c12Creds)
+			if j >= 7 {
+				return &c12Case{Proto: "grpc", Path: "main", Cred: "tls_nocert", Impostor: []string{"rogue_plugin_listener:samename", "rogue_plugin_listener:plaintext", "rogue_host_listener:samename", "rogue_host_listener:plaintext"}[j-7], SNI: "localhost", Junk: []byte("x")}
+			}
 			if j >= 4 {
 				return &c12Case{Proto: []string{"netrpc", "grpc", "grpcmux"}[j-4], Path: "main", Cred: "tls_nocert", Impostor: "nocert", SNI: "localhost", Junk: []byte("x")}
 			}
@@ -282,6 +285,58 @@ func c12Run(ci any) (out Outcome) {
 	set := SetSpec{Kind: "dual"}
 	cc := HostCfg{LegacyVersion: 1, Legacy: &set, Allowed: []string{"netrpc", "grpc"}, TLS: "auto", Mux: c.Proto == "grpcmux", SkipHostEnv: true}.clientConfig()
 
+	if strings.HasPrefix(c.Impostor, "rogue_") {
+		// The pair is genuine, but what answers behind one brokered id presents another certificate
+		// (same subject and SAN, other key) or none: the dialling side must refuse it.
+		out.label("impostor:%s", c.Impostor)
+		out.NonTrivial = true
+		kind := c.Impostor[strings.IndexByte(c.Impostor, ':')+1:]
+		cc.Cmd = pluginCmd(PluginSpec{LegacyVersion: 1, Legacy: &set, GRPCServer: true})
+		cc.Cmd.Env = []string{"TMPDIR=" + caseDir}
+		cl := plugin.NewClient(cc)
+		defer killBounded(cl, 20*time.Second)
+		h, _, err := dispense(cl, "p")
+		if err != nil {
+			out.violate("legitimate AutoMTLS pair could not connect: %v", err)
+			return
+		}
+		gh := h.(*grpcHandle)
+		id := freshBrokerID()
+		var answered string
+		if _, ok := within(40*time.Second, func() {
+			if strings.HasPrefix(c.Impostor, "rogue_plugin_listener") {
+				if _, err := h.DoT(Cmd{Op: "broker_accept_rogue", ID: id, S: kind}, 20*time.Second); err != nil {
+					return
+				}
+				if r, err := c14HostDial(h, id); err == nil {
+					answered = fmt.Sprintf("the host's brokered dial of id %d was answered (%+v) by a server presenting %s instead of the plugin's certificate", id, r.Tag, kind)
+				}
+			} else {
+				ln, err := gh.broker.Accept(id)
+				if err != nil {
+					return
+				}
+				srv := rogueServer(kind, &impl{tag: Tag{Pid: os.Getpid(), Broker: id, Side: "host-rogue", Proto: "grpc"}})
+				go srv.Serve(ln)
+				defer srv.Stop()
+				if r, err := h.DoT(Cmd{Op: "broker_dial", ID: id}, 30*time.Second); err == nil {
+					answered = fmt.Sprintf("the plugin's brokered dial of id %d was answered (%s) by a server presenting %s instead of the host's certificate", id, r.B, kind)
+				}
+			}
+		}); !ok {
+			out.Slow = "the rogue brokered establishment neither failed nor succeeded within 40 s"
+			return
+		}
+		if answered != "" {
+			out.violate("%s", answered)
+			return
+		}
+		// the genuine pair still brokers in both directions
+		if step, err := c14BrokerBothWays(h); err != nil {
+			out.violate("after a refused rogue listener the genuine pair no longer works (%s): %v", step, firstLine(err))
+		}
+		return
+	}
 	if c.Impostor != "" {
 		out.label("impostor:%s", c.Impostor)
 		op := "listen_tls"
@@ -454,7 +509,7 @@ var propC12 = register(&Prop{
 	Run:  c12Run,
 	Enum: c12Enum,
 	Rule: "rapid draws a connection path (main listener; for gRPC also the plugin-side and host-side brokered listeners; net/rpc, gRPC, gRPC+mux), an intruder credential class (plaintext speaking the right protocol, plaintext random bytes, TLS without certificate, TLS with a fresh self-signed certificate, TLS with a certificate of identical subject/SAN but another key), TLS version bounds and SNI; " +
-		"or makes the plugin an impostor that announces one certificate and serves another / plaintext, or a working plugin that ignores AutoMTLS (no certificate announced, no TLS). The intruder learns addresses from the handshake and by watching the per-case socket directories. " +
+		"or makes the plugin an impostor that announces one certificate and serves another / plaintext, or a working plugin that ignores AutoMTLS (no certificate announced, no TLS), or a genuine pair in which the server behind one brokered id (either direction) presents a same-name certificate with another key / no TLS. The intruder learns addresses from the handshake and by watching the per-case socket directories. " +
 		"Oracle: no intruder RPC is answered (health check, plugin service, brokered service, Control.Ping), the plugin's request counter and the host-side server's counter do not move, the legitimate pair still works on the attacked path; against an impostor no host call succeeds. The thorough tier also enumerates the 25-cell path x credential matrix and the impostors completely. Non-trivial: the intruder completed a connect to a live listener of the case.",
 	Assumptions: []string{"with gRPC+mux the plugin accepts a single connection on its socket, so brokered paths have no listener of their own; with net/rpc brokered connections are yamux streams inside the authenticated connection"},
 })
